@@ -6,6 +6,14 @@ _NOTE = ("Bounded: holds for all values within the bounds recorded in the eviden
 _TECH = "symbolic execution of the real Python code on z3-backed proxy values (BV64/Float64/Real), branch decisions and obligations decided by z3, counterexamples replayed concretely"
 
 CLAIMS = {
+    "C13": {
+        "text": "Bounded symbolic model checking of the real _read loop over streams of 1-3 frames cut at up to three solver-chosen offsets: the reader stub compares 'delivered so far >= needed' symbolically, so each path is one class of cut positions relative to every read boundary (prefix, length field, payload, check bytes) and all split points are covered; on every path the delivered messages equal those of the unsegmented stream, once each, in order, without reset. Sampled path models are replayed on the real asyncio.StreamReader.",
+        "note": _NOTE, "technique": _TECH, "design_ref": "DESIGN.md section 6 C13",
+    },
+    "C17": {
+        "text": "Bounded symbolic model checking of the real receive path on unknown and malformed input: frames whose type byte / 0x1F sub-id / 0xC0 sub-type is symbolic and unregistered with symbolic payload must be delivered as unsupported messages carrying id and payload unchanged, leave the connection undisturbed and be followed by the next frame; free byte streams (header length + up to 4/8 free bytes, then EOF or silence) must never kill the receive task, anything delivered must carry the header the reference framing reads from those bytes with a valid check value, and the client must recover (probe delivered after reconnect); oversized AT5 strides are decoded from the known prefix.",
+        "note": _NOTE, "technique": _TECH, "design_ref": "DESIGN.md section 6 C17",
+    },
     "C08": {
         "text": "Bounded symbolic model checking of the real HeartbeatManager (symbolic interval/timeout configuration) and of the real API objects after the real handshake (library constants 300/330 s) on a virtual-time loop: per heartbeat the console answers after a solver-chosen delay or never, silence starting at a solver-enumerated heartbeat; on every ordering class of the instants the version requests must appear at start+k*interval and the connection must be reset at exactly the instants given by 'deadline = (start | last response | previous reset) + timeout', and never when all answers come within timeout-interval; the API's response matcher is exercised with non-matching answers.",
         "note": _NOTE, "technique": _TECH, "design_ref": "DESIGN.md section 6 C08",
